@@ -144,8 +144,8 @@ def _sample(case):
 def plan(tier: str) -> list[dict]:
     if tier == "quick":
         return [{"max_n": 5, "examples": 500, "big_r": False, "cost": 3} for _ in range(3)] + [{"max_n": 6, "examples": 120, "big_r": False, "cost": 3}]
-    return ([{"max_n": 5, "examples": 800, "big_r": True, "cost": 8} for _ in range(10)]
-            + [{"max_n": 6, "examples": 250, "big_r": True, "cost": 10} for _ in range(6)])
+    return ([{"max_n": 5, "examples": 6000, "big_r": True, "cost": 8} for _ in range(10)]
+            + [{"max_n": 6, "examples": 1500, "big_r": True, "cost": 10} for _ in range(6)])
 
 
 def run_shard(spec: dict, ctx: Ctx) -> None:
